@@ -13,7 +13,7 @@ PROP_MODULES = {
     "C01": ["contracts.c01", "contracts.c01b", "contracts.c01_bounded", "contracts.c15", "contracts.c18", "contracts.c02"],
     "C02": ["contracts.c02", "contracts.c02_bounded", "contracts.c15"],
     "C03": ["contracts.c03", "contracts.c03_bounded", "contracts.c06"],
-    "C04": ["contracts.c04", "contracts.c05"],
+    "C04": ["contracts.c04", "contracts.c05", "contracts.c03"],
     "C05": ["contracts.c05", "contracts.c05_bounded"],
     "C11": ["contracts.c11", "contracts.c11_bounded", "contracts.c02"],
     "C19": ["contracts.c19", "contracts.c19_bounded", "contracts.c02", "contracts.c15"],
